@@ -316,5 +316,26 @@ func (pp *PreParams) Unmarshal(bytes []byte) error {
 	}
 	pp.creationTimestamp = pbPreParams.CreationTimestamp.AsTime()
 
+	// A missing or empty field decodes to zero. None of the numbers may be
+	// zero in usable pre-parameters; the TSS key generation crashes on them.
+	for _, number := range []*big.Int{
+		pp.data.PaillierSK.N,
+		pp.data.PaillierSK.LambdaN,
+		pp.data.PaillierSK.PhiN,
+		pp.data.NTildei,
+		pp.data.H1i,
+		pp.data.H2i,
+		pp.data.Alpha,
+		pp.data.Beta,
+		pp.data.P,
+		pp.data.Q,
+	} {
+		if number.Sign() <= 0 {
+			return fmt.Errorf(
+				"failed to unmarshal pre params: incomplete data",
+			)
+		}
+	}
+
 	return nil
 }
